@@ -105,6 +105,9 @@ def c09(quick):
         S.append((D(mode=mode, nj=2, pre=8, bs=1, calls=[dict(n=20, fail=(1,))]), "random", rnd))
     for mode in (GEN, UNORD):
         S.append((D(mode=mode, nj=2, pre=2, bs=1, calls=[dict(n=10, cons="close"), dict(n=2)]), "random", rnd))
+        # the same under "python -W error": the exit-early warning raised while closing must not keep the input flowing
+        S.append((D(mode=mode, nj=2, pre=2, bs=1, warn_error=True, calls=[dict(n=10, cons="close"), dict(n=2)]), "random", rnd))
+        S.append((D(mode=mode, nj=2, pre=3, bs=1, warn_error=True, managed=True, calls=[dict(n=12, cons="close"), dict(n=2)]), "random", rnd))
     # D9 (known finding): completions delivered at every critical-section boundary of the initial dispatch loop
     S.append((D(mode=LIST, nj=2, pre=2, bs=1, calls=[dict(n=24)]), "sched", [[1] * 60]))
     return S
